@@ -191,7 +191,11 @@ func (x *run) setup() error {
 	p := x.p
 	nrep, nhub := p.CfgInt("replicas", 2), p.CfgInt("hubs", 1)
 	for h := 0; h < nhub; h++ {
-		x.w.AddHub(fmt.Sprintf("hub%d", h))
+		name := fmt.Sprintf("hub%d", h)
+		if p.CfgBool("slash_remote") && h == 0 {
+			name = "team/hub0" // git allows slashes in remote names; the tracking refs get one level more
+		}
+		x.w.AddHub(name)
 	}
 	levels, _ := p.Cfg["levels"].([]interface{})
 	skews, _ := p.Cfg["skews"].([]interface{})
@@ -580,7 +584,7 @@ func (x *run) doStep(rs *repState, s *sim.Step, pre *obs) error {
 		// D already applied
 	case "partition":
 		h := s.H % len(x.w.Hubs)
-		x.w.Net.Partition[rs.r.Name+"|"+x.w.Hubs[h].Name] = s.N == 1
+		x.w.Net.Partition[rs.r.Name+"|"+sim.HostOf(x.w.Hubs[h].Name)] = s.N == 1
 		if s.N == 1 {
 			x.w.Stats.Fault("partition-set")
 		}
